@@ -58,7 +58,9 @@ def run_probe(src, name, debug=0, limit=2.0):
 
             def pop(stop):
                 pops.append((stop, len(ctx.tokens)))
-                events.append(("pop", stop, len(ctx.tokens)))
+                seg = ctx.tokens[:stop] if isinstance(stop, int) and stop > 0 else []
+                events.append(("pop", stop, len(ctx.tokens), seg[0].pos[1] if seg else None,
+                               seg[-1].type if seg else None, ctx.scope.name))
                 return orig_pop(stop)
             ctx.pop_tokens = pop
             reg.run(ctx)
@@ -78,6 +80,7 @@ def run_probe(src, name, debug=0, limit=2.0):
     if res["kind"] == "ok":
         res["diags"] = [impl.diag_tuple(x) for x in f.errors]
         res["status"] = f.errors.status
+    res["uncaught"] = "uncaught ->" in out.getvalue()
     res["stdout"] = out.getvalue()[-300:]
     return res
 
